@@ -45,13 +45,17 @@ abbrev NodeFilter := Tree → Bool
 /-- `NodeMap::len` for attributes: `children().count()`. -/
 def Tree.attrLen (t : Tree) : Nat := t.attributeNodes.length
 
+/-- Body of the loop of `advanced_compare_attributes`: `if let Some(value_b) = value_b
+    { text_compare(value_a, value_b) } else { false }`. -/
+def cmpFound (cmp : TextCmp) (va : Str) (found : Option Str) : Bool :=
+  match found with
+  | some vb => cmp va vb
+  | none => false
+
 /-- `advanced_compare_attributes`: lengths, then every entry of `a` looked up in `b`. -/
 def compareAttributes (cmp : TextCmp) (a b : Tree) : Bool :=
   if a.attrLen != b.attrLen then false
-  else a.attrs.all fun kv =>
-    match b.getAttribute kv.1 with
-    | some vb => cmp kv.2 vb
-    | none => false
+  else a.attrs.all fun kv => cmpFound cmp kv.2 (b.getAttribute kv.1)
 
 /-- `advanced_compare_value`. -/
 def compareValue (cmp : TextCmp) (a b : Tree) : Bool :=
@@ -273,6 +277,53 @@ where
     | [] => []
     | k :: ks => Canon.text k ++ textList ks
 
+/-! ### Specification with a text comparison and with discarded nodes -/
+
+/-- Finite maps related pointwise by `cmp`: same size, and every entry of the first has an entry
+    of the same name in the second with a `cmp`-related value. -/
+def attrsRel (cmp : TextCmp) (a b : List (Nat × Str)) : Bool :=
+  a.length == b.length && a.all fun kv => cmpFound cmp kv.2 (b.lookup kv.1)
+
+/-- Canonical values related up to `cmp` on text, attribute values and PI data. -/
+def CValue.rel (cmp : TextCmp) : CValue → CValue → Bool
+  | .document, .document => true
+  | .element n a, .element m b => n == m && attrsRel cmp a b
+  | .text s, .text t => cmp s t
+  | .comment s, .comment t => s == t
+  | .pi t d, .pi t' d' =>
+    t == t' && (match d, d' with
+      | some x, some y => cmp x y
+      | none, none => true
+      | _, _ => false)
+  | .attribute n v, .attribute m w => n == m && cmp v w
+  | .namespace p n, .namespace q m => p == q && n == m
+  | _, _ => false
+
+mutual
+/-- Canonical forms related up to `cmp`: values related, children related pairwise. -/
+def Canon.rel (cmp : TextCmp) : Canon → Canon → Bool
+  | .node v ks, .node w js => CValue.rel cmp v w && Canon.relList cmp ks js
+def Canon.relList (cmp : TextCmp) : List Canon → List Canon → Bool
+  | [], [] => true
+  | [], _ :: _ => false
+  | _ :: _, [] => false
+  | x :: xs, y :: ys => Canon.rel cmp x y && Canon.relList cmp xs ys
+end
+
+mutual
+/-- Discard, below the root, every normal node whose value fails `keep`. -/
+def discard (keep : Value → Bool) : Tree → Tree
+  | .node v ks => .node v (discardList keep ks)
+def discardList (keep : Value → Bool) : List Tree → List Tree
+  | [] => []
+  | k :: ks =>
+    if k.value.isNormal && !keep k.value then discardList keep ks
+    else discard keep k :: discardList keep ks
+end
+
+/-- What `deep_equal_xpath` keeps below the compared nodes: elements and text. -/
+def xpathKeep (v : Value) : Bool := v.isElement || v.isText
+
 /-! ### Structural validity (the part of `StructValid` the comparison functions depend on) -/
 
 /-- Children come as namespaces, then attributes, then normal nodes: after skipping the leading
@@ -292,6 +343,19 @@ where
   validList : List Tree → Bool
     | [] => true
     | k :: ks => Tree.valid k && validList ks
+
+/-- `valid`, and moreover every node that is not kept (attribute / namespace node, or a normal
+    node failing `keep`) is a leaf. `validRootFor` exempts the root from the leaf condition. -/
+def Tree.validFor (keep : Value → Bool) : Tree → Bool
+  | .node v ks =>
+    kidsOrdered ks && attrNamesNodup ks && ((v.isNormal && keep v) || ks.isEmpty) && validForList keep ks
+where
+  validForList (keep : Value → Bool) : List Tree → Bool
+    | [] => true
+    | k :: ks => Tree.validFor keep k && validForList keep ks
+
+def Tree.validRootFor (keep : Value → Bool) (t : Tree) : Bool :=
+  kidsOrdered t.kids && attrNamesNodup t.kids && t.kids.all (Tree.validFor keep)
 
 /-- Text, comment and PI nodes are leaves, everywhere below (and including) `t`. -/
 def Tree.contentLeaves : Tree → Bool
